@@ -36,12 +36,12 @@ LEVEL = {
 }
 
 LEVEL.update({
-    "C01": ("Theorems (all source texts, both modes): outcome form of a rejected parse (1 error in stop mode; 1..cap+1 distinct messages in collecting mode; cap+1 = 11 on the regenerated table), termination of the parse and look-ahead loops (the fuel outcome is unreachable), every error line within 1..lines+1, stream envelope kinds, totality of compile on rectangular documents, and the linear bound calls <= workPerToken(T)*(lines+1) (= 20 per line, computed from the regenerated table) under kernel-checked queue facts. Builder crash-freedom is proved on every complete, well-matched token tree (the result is a document or a ragged-table error; completeness derived from ValidTree of the regenerated grammar); not yet proved for rejected inputs and not yet linked to the imperative run (the model represents Python run-time errors explicitly and the tie compares them). Per-call cost is outside the model: every document of the run is first parsed in a child process under a watchdog together with inputs built to make each regular expression backtrack.",
-            "partial: C01_no_crash is decided by the correspondence only; filesystem overload of TokenScanner is known finding F4"),
+    "C01": ("Theorems (all source texts, both modes): outcome form of a rejected parse (1 error in stop mode; 1..cap+1 distinct messages in collecting mode; cap+1 = 11 on the regenerated table), termination of the parse and look-ahead loops (the fuel outcome is unreachable), every error line within 1..lines+1, stream envelope kinds, totality of compile on rectangular documents, and the linear bound calls <= workPerToken(T)*(lines+1) (= 20 per line, computed from the regenerated table) under kernel-checked queue facts. C01_no_crash: for every source text and both modes the parse outcome is never the explicit crash outcome that models AttributeError/IndexError/unknown state (abstract interpretation of the builder stack computed from the regenerated table and kernel-checked; invariant proved for accepted and rejected runs), hence the outcome is a document or a rejection (C01_parse_outcome_total). Per-call cost is outside the model: every document of the run is first parsed in a child process under a watchdog together with inputs built to make each regular expression backtrack.",
+            "filesystem overload of TokenScanner is known finding F4; per-call cost and wall-clock are outside the model (watchdog)"),
     "C03": ("Node-level theorems (field rules of every node kind, description joining and trimming characterised uniquely, children kept in insertion = source order, crashes only when a needed token/field is missing) and the whole-document composition over token trees: the builder's stack machine computes exactly the structural recursion astOf of the tree (error paths included), and for grammar-shaped trees (shape derived from ValidTree of the regenerated grammar by a kernel-checked fact) the element locations of the AST in source order equal the element-carrying leaves of the tree in order: every element once, nothing else. Tie: complete ASTs (minus locations/ids) of generated and corpus documents vs the model.",
-            "partial: the link from the imperative parse's operations to the token tree of its events is by the tie (events stream); C03_roundtrip not proved"),
+            "C03_parse_is_astOf links every accepted imperative parse to its token tree; C03_roundtrip (generated models) not proved"),
     "C11": ("Theorems: C11_pickle_ids (compiler draws consecutive ids, steps then pickle), builder node-level id theorems, and C11_ast_ids_canonical: for every grammar-shaped token tree the ids of the document, traversed in the canonical order of the property, are exactly n, n+1, ... (distinct, dense, canonical); C15_id_offset gives the shared-generator case. Tie/oracle: all ids vs the model; independent oracle on the implementation (distinct, 0..N-1, references resolve to nodes of the right kind); several sources through one stream.",
-            "the link from the imperative parse to the token tree is by the tie"),
+            "C11_parse_ids_canonical states it for the document of every accepted parse"),
     "C15": ("Theorems: the matcher state stays consistent through every parse (invariant), reset makes a parse independent of everything the matcher was used for before (C15_used_equals_fresh for any history), the builder/queue/errors are fresh per parse, ids shift uniformly with the counter (parser, compiler, stream), generic frame lemma for arbitrary schedules and its instance for the parse loop, determinism. Tie (carries the weight for heap effects): all ordered pairs/triples of state-perturbing documents through one Parser+TokenMatcher vs fresh instances, one shared Compiler/TokenMatcher through long document sequences, random schedules of concurrent parses gated at every token read (with and without an explicit matcher).",
             "heap aliasing and preemption inside a match call cannot be exhibited by a functional model"),
     "C16": ("Per-line invariance theorems of the matcher model for the token it actually sees (CRLF for all 14 kinds, final newline, trailing blanks, indentation shifting only columns / tag-error column / the doc string's indent) under kernel-checked dialect facts and a proved separator invariant; kind-level whole-run theorems, generic in the table under kernel-checked facts: an inserted blank line adds exactly one build Empty, a comment before a structural line adds exactly one build Comment. Tie: metamorphic pairs on the implementation (LF/CRLF, final newline, trailing blanks, indentation, doc-string block indentation, blank line, comment line) at sampled admissible positions; file loading incl. BOM.",
